@@ -442,6 +442,8 @@ struct RogueNotif {
     behaviour: String,
     max_size: usize,
     handle: Handle,
+    /// bytes the rogue may still put on the wire (keeps runs over 1-byte carriers inside the budget)
+    byte_budget: usize,
 }
 
 fn uvarint(mut n: u64) -> Vec<u8> {
@@ -466,7 +468,7 @@ impl UserProtocol for RogueNotif {
     fn codec(&self) -> ProtocolCodec {
         ProtocolCodec::Unspecified
     }
-    async fn run(self: Box<Self>, mut service: TransportService) -> litep2p::Result<()> {
+    async fn run(mut self: Box<Self>, mut service: TransportService) -> litep2p::Result<()> {
         use tokio::io::{AsyncReadExt, AsyncWriteExt};
         let mut held: Vec<Substream> = Vec::new();
         let hs = [uvarint(2), vec![0xee, 0xbb]].concat();
@@ -516,8 +518,11 @@ impl UserProtocol for RogueNotif {
                                     _ => None,
                                 };
                                 if let Some(b) = bytes {
-                                    let _ = substream.write_all(&b).await;
-                                    let _ = substream.flush().await;
+                                    if b.len() <= self.byte_budget {
+                                        self.byte_budget -= b.len();
+                                        let _ = substream.write_all(&b).await;
+                                        let _ = substream.flush().await;
+                                    }
                                 }
                             }
                         }
@@ -553,7 +558,7 @@ impl Prop for NotifProp {
     fn describe(&self) -> Describe {
         Describe {
             level: "exploration",
-            rule: "each case = one seeded run of 2-3 complete litep2p nodes with a notification protocol on SimNet: materialised user commands on every endpoint (open, close, simultaneous opens, sync/async notification bursts, reader stalls, validation-policy changes), fault plan (resets, half-closes, byte-offset cuts, partitions, refused / black-holed / slow connects, node kill with reset or silent vanish, crash + restart with the same identity, process stalls), channel sizes, auto-accept, scheduler kind and knobs, followed by a fault-free final phase that resets the users and opens a canary stream between every pair; non-trivial = scheduler had >=1 choice point; distinct = distinct trace hash".into(),
+            rule: "each case = one seeded run of 2-3 complete litep2p nodes with a notification protocol on SimNet: in a third of the runs ghost n+1 is a live peer that registers the protocol name as a raw user protocol and plays the two-substream handshake badly (no reply / reply only / reply and close / complete then silence, oversize frame, unterminated varint or close / initiate and go silent), a quarter of the commands then target it; materialised user commands on every endpoint (open, close, simultaneous opens, sync/async notification bursts, reader stalls, validation-policy changes), fault plan (resets, half-closes, byte-offset cuts, partitions, refused / black-holed / slow connects, node kill with reset or silent vanish, crash + restart with the same identity, process stalls), channel sizes, auto-accept, scheduler kind and knobs, followed by a fault-free final phase that resets the users and opens a canary stream between every pair; non-trivial = scheduler had >=1 choice point; distinct = distinct trace hash".into(),
             real: vec!["Litep2p", "TransportManager", "TcpTransport/TcpConnection", "multistream-select", "Noise", "yamux", "NotificationProtocol + HandshakeService + Connection + NotificationHandle/NotificationSink", "TransportService", "substream framing"],
             stub: vec!["socket layer (SimNet)", "clock (incl. futures_timer::Delay via hook H2)", "task scheduler (seeded)", "HashMap seeds"],
             assumptions: vec![
@@ -700,7 +705,7 @@ impl Prop for NotifProp {
             if let Some(behaviour) = case["rogue"].as_str() {
                 let g = n + 1;
                 node::CURRENT_NODE.with(|c| c.set(g));
-                let cfg = base_config(&handle, seed, g, &knobs).with_user_protocol(Box::new(RogueNotif { behaviour: behaviour.to_string(), max_size, handle: handle.clone() })).build();
+                let cfg = base_config(&handle, seed, g, &knobs).with_user_protocol(Box::new(RogueNotif { behaviour: behaviour.to_string(), max_size, handle: handle.clone(), byte_budget: (case["net"]["max_chunk"].as_u64().unwrap_or(65536) as usize).saturating_mul(200_000) })).build();
                 match Litep2p::new(cfg) {
                     Ok(mut l) => {
                         handle.spawn(g, "rogue-event-loop", async move { while l.next_event().await.is_some() {} });
